@@ -349,6 +349,39 @@ def document_names_ob(v):
     compare(v, root, objs)
 
 
+SEP_NAMES = ["a", "a/b", "a b", "a,b", "('a'"]
+SEP_TYPES = ["c", "b/c", "b c", "b,c", "'c')"]
+
+
+@obligation("C08", "separator_pairs", shards=5, budget={"quick": 200, "thorough": 400},
+            expect=["issues", "clean", "errors"],
+            bounds="two sibling Sections (below the Document or below a Section) whose names and types come, by symbolic index, from pools that "
+                   "contain the separators a joined or printed (name, type) key could use ('/', ' ', ',', quotes and parentheses): a/b + c vs a + b/c etc.; "
+                   "or two sibling Properties named from the name pool")
+def separator_pairs_ob(v):
+    """Duplicate name/type (202) and duplicate Property name (203) are decided on the pair itself, not on a joined text."""
+    import odml
+    doc = odml.Document()
+    top = odml.Section(name="top", type="t", parent=doc)
+    objs = [doc, top]
+    first = v.sharded_choice("name0", len(SEP_NAMES))
+    if v.bool("properties"):
+        # a sum, not a product: either two sibling Properties or two sibling Sections carry the pool names
+        for i in range(2):
+            prop = odml.Property(name="p%d" % i, parent=top)
+            prop._name = SEP_NAMES[first if i == 0 else v.choice("pname%d" % i, len(SEP_NAMES))]
+            objs.append(prop)
+    else:
+        holder = doc if v.bool("at_root") else top
+        for i in range(2):
+            sec = odml.Section(name="s%d" % i, type="t")
+            holder.append(sec)
+            sec._name = SEP_NAMES[first if i == 0 else v.choice("name%d" % i, len(SEP_NAMES))]
+            sec.type = SEP_TYPES[v.choice("type%d" % i, len(SEP_TYPES))]
+            objs.append(sec)
+    compare(v, doc, objs)
+
+
 @obligation("C08", "document_ids", shards=12, budget={"quick": 300, "thorough": 900},
             expect=["issues", "errors"],
             bounds="Document root with up to four Sections on two levels (s0 > s2, s3; s1) and up to two Properties in any of them; up to two objects take "
